@@ -25,7 +25,7 @@ RULE_PROP = {
 class QTask:
     __slots__ = ('uid', 'owner', 'task', 'occ', 'ptr', 'L', 'gen', 'N',
                  'loaded_iter', 'touched_iter', 'last_due_iter', 'stopped',
-                 'epoch', 'dur', 'accepted_t', 'lineage')
+                 'epoch', 'dur', 'accepted_t', 'lineage', 'via', 'cal')
 
     def __init__(self, uid, owner, task, occ, L, gen, N, it, epoch):
         self.uid = uid
@@ -46,6 +46,8 @@ class QTask:
         # retirement ends it (leftover executions of a cancelled task do not
         # count against a task added later under the same UID)
         self.lineage = gen
+        self.via = 'echsq'
+        self.cal = None
 
     def finished(self):
         return self.ptr >= len(self.occ)
@@ -54,6 +56,8 @@ class QTask:
         q = QTask(self.uid, self.owner, self.task, self.occ, self.L, self.gen,
                   self.N, self.loaded_iter, self.epoch)
         q.ptr = self.ptr
+        q.via = self.via
+        q.cal = self.cal
         return q
 
 
@@ -155,6 +159,7 @@ class Model:
                     # occurrences consumed before the checkpoint stay consumed:
                     # the checkpoint describes "the occurrences not yet consumed"
                     nq.ptr = max(nq.ptr, q.ptr)
+                    nq.via, nq.cal = q.via, q.cal
                     if nq.ptr < len(nq.occ):
                         newq[uid] = nq
                     else:
@@ -326,6 +331,25 @@ class Model:
 
     def on_resched(self, r):
         self.last_resched[r['uid']] = r
+        # what the daemon asks to be woken for must be the task's next
+        # occurrence: a daemon that sleeps past one is not "held up"
+        if self.iter > 0 and not self.conn_of_cb():
+            q = self.queue.get(r['uid'])
+            if q is not None and q.loaded_iter < self.iter and q.touched_iter != self.iter:
+                self.check_armed(q, r, self.W)
+
+    def check_armed(self, q, r, W):
+        j = bisect.bisect_left(q.occ, W, q.ptr)
+        nxt = q.occ[j] if j < len(q.occ) else None
+        ret = r.get('ret')
+        if nxt is None:
+            if not r.get('fin') and ret is not None and ret < 1e29:
+                self.v('R-NEXT', 'armed-beyond-end',
+                       'task %r has no occurrence at or after %.3f but the daemon armed it for %.0f' % (q.uid, W, ret))
+        elif r.get('fin') or ret is None or abs(ret - nxt) > 0.5:
+            self.v('R-NEXT', 'armed-for',
+                   'task %r (%s): at %.3f the daemon armed the next run for %s, the next occurrence is %d'
+                   % (q.uid, self.cls(q), W, 'never' if r.get('fin') else ret, nxt))
 
     def conn_of_cb(self):
         if self.cur_cb and self.cur_cb.get('w') == 'io' and 'c' in self.cur_cb:
@@ -509,7 +533,12 @@ class Model:
                 if old is not None:
                     q.touched_iter = self.iter
                     q.lineage = old.lineage
+                q.via = c['info'].get('via', 'echsq')
+                q.cal = cal
                 self.queue[uid] = q
+                rs = self.last_resched.get(uid)
+                if rs is not None and rs.get('t') == self.W and status != 'unseen':
+                    self.check_armed(q, rs, self.W)
                 self.dirty.add(peer)
                 self.stat('adds_accepted')
                 self.ended_tasks.pop(uid, None)
@@ -780,7 +809,8 @@ class Model:
     def check_fields(self, q, pd, r):
         """R-FIELDS: the execution request carries what the spec says"""
         sp = q.task['spec']
-        conn_via = q.task.get('via', 'echsq')
+        conn_via = q.via
+        cal = q.cal or {}
 
         def one(k):
             v = pd.get(k)
@@ -791,12 +821,12 @@ class Model:
         if conn_via == 'echsq':
             exp['X-ECHS-SHELL'] = sp.get('shell') or '/bin/sh'
             exp['LOCATION'] = sp.get('location') or '/'
-            um = sp.get('umask')
+            um = sp.get('umask') if sp.get('umask') is not None else cal.get('umask')
             exp['X-ECHS-UMASK'] = '0%o' % (int(str(um), 8) if um is not None else 0o022)
         else:
             exp['X-ECHS-SHELL'] = sp.get('shell') or self.users.get(q.owner, {}).get('shell', '/bin/sh')
             exp['LOCATION'] = sp.get('location') or home
-            um = sp.get('umask')
+            um = sp.get('umask') if sp.get('umask') is not None else cal.get('umask')
             exp['X-ECHS-UMASK'] = '0%o' % (int(str(um), 8) if um is not None else 0o066)
         for k, f in (('ifile', 'X-ECHS-IFILE'), ('ofile', 'X-ECHS-OFILE'), ('efile', 'X-ECHS-EFILE')):
             exp[f] = sp.get(k)
